@@ -178,12 +178,7 @@ def stepLib0 (st : St) (toks : List String) : Option (St × String) :=
   -- disk — and the header goes to the buffer only
   | ["createover", lay, agg, xff] => do
     let lay ← parseLay lay; let agg ← agg.toNat?; let xff ← natOfHex xff
-    match st.w.disk with
-    | none => return doOp st (.create lay agg (UInt32.ofNat xff))
-    | some d =>
-      match recreateHandle o agg (UInt32.ofNat xff) lay d with
-      | .error e => return (st, faultStr e)
-      | .ok (disk', h) => return ({ st with w := ⟨some disk', some h⟩ }, "ok")
+    return doOp st (.createOver lay agg (UInt32.ofNat xff))
   | ["open"] => some (doOp st .open_)
   | ["setdisk", hex] => do
     let b ← bytesOfHex hex
